@@ -41,9 +41,26 @@ type entry struct {
 	// signed: the seeds are authenticated artefacts (names.go): only the DER-tree mutators, which re-sign,
 	// apply; swept by the workload c13.names
 	signed bool
+	// kinds: when set, only these mutator kinds (and the unmodified seeds) apply: entry points that verify under keys
+	// of every kind cost milliseconds per call and exist for the der-algid product; the artefact forms they parse are
+	// swept in full through the ordinary entry points
+	kinds []int
+}
+
+func (e *entry) wants(kind int) bool {
+	if e.kinds == nil {
+		return true
+	}
+	for _, k := range e.kinds {
+		if k == kind {
+			return true
+		}
+	}
+	return false
 }
 
 func catalogue(w *world) []*entry {
+	w.buildKeyKinds() // the artefacts of the key-kind PKI (algid.go) join the world with the catalogue
 	var es []*entry
 	add := func(name string, seeds []string, f func(b []byte) bool) *entry {
 		e := &entry{name: name, seeds: seeds, f: f, chunk: 256}
@@ -339,7 +356,7 @@ func catalogue(w *world) []*entry {
 		_, err := smx509.ParseDERCRL(b)
 		return err == nil
 	})
-	add("smx509.ParsePKIXPublicKey", S("key.pkix.sm2", "key.pkix.rsa", "key.pkix.ecdsa", "key.pkix.ed25519", "key.pkix.x25519", "key.pkix.dsa"), func(b []byte) bool {
+	add("smx509.ParsePKIXPublicKey", S("key.pkix.sm2", "key.pkix.rsa", "key.pkix.ecdsa", "key.pkix.ed25519", "key.pkix.x25519", "key.pkix.dsa", "key.pkix.kk.p224", "key.pkix.kk.p384", "key.pkix.kk.p521", "key.pkix.kk.rsa2048"), func(b []byte) bool {
 		_, err := smx509.ParsePKIXPublicKey(b)
 		return err == nil
 	})
@@ -397,6 +414,8 @@ func catalogue(w *world) []*entry {
 			return err == nil
 		})
 	}
+
+	algEntries(w, add)
 
 	// ---------------------------------------------------------------- pkcs8
 	p8enc := S("p8enc.sm.pbes", "p8enc.sm4cbc.pbkdf2-sm3", "p8enc.sm4gcm.pbkdf2-sm3", "p8enc.sm4ecb.pbkdf2-sha256", "p8enc.aes128cbc.pbkdf2-sha1",
